@@ -12,6 +12,7 @@ X = "ariadne_codegen.exceptions."
 VIOLATIONS = [
     ("no_schema_source", {"schema_path": None}, "InvalidConfiguration"),
     ("schema_path_missing", {"schema_path": "/nonexistent/schema.graphql"}, "InvalidConfiguration"),
+    ("schema_path_missing_with_remote_url", {"schema_path": "/nonexistent/schema.graphql", "remote_schema_url": "http://x/graphql"}, "InvalidConfiguration"),
     ("queries_path_not_given", {"queries_path": None}, "MissingConfiguration"),
     ("queries_path_missing", {"queries_path": "/nonexistent/q.graphql"}, "InvalidConfiguration"),
     ("package_name_dash", {"target_package_name": "my-pkg"}, "InvalidConfiguration"),
